@@ -98,6 +98,19 @@ pub fn case(seed: u64, st: &mut Stats) {
             requires = Some((x, z));
         }
     }
+    // an override relation: only command-line occurrences may remove the other argument
+    let mut overrides: Option<(usize, usize)> = None;
+    if n >= 2 && rng.chance(1, 3) {
+        let x = rng.below(n);
+        let y = (x + 1 + rng.below(n - 1)) % n;
+        let clash = |p: Option<(usize, usize)>| p.map(|(a, b)| (a == x && b == y) || (a == y && b == x)).unwrap_or(false);
+        // a required argument that is in an override pair is excused when its partner is present
+        let touches_required_target = requires.map(|(_, z)| z == x || z == y).unwrap_or(false);
+        if !clash(conflict) && !clash(requires) && !touches_required_target {
+            c.args[x].overrides.push(format!("x{}", y));
+            overrides = Some((x, y));
+        }
+    }
     let help_else = rng.chance(1, 5);
     if help_else {
         c.set(Setting::ArgRequiredElseHelp);
@@ -158,6 +171,18 @@ pub fn case(seed: u64, st: &mut Stats) {
                 }
             }
             per.insert(i, Cli::Given(occs));
+        }
+        if let Some((x, y)) = overrides {
+            // `order` is the argv order of first appearance; whichever of the pair comes later wins
+            let px = order.iter().position(|i| *i == x);
+            let py = order.iter().position(|i| *i == y);
+            let gx = !matches!(per.get(&x), Some(Cli::Absent) | None);
+            let gy = !matches!(per.get(&y), Some(Cli::Absent) | None);
+            if gx && gy {
+                let loser = if px < py { x } else { y };
+                per.insert(loser, Cli::Absent);
+                st.count("lattice.cli-override-removed");
+            }
         }
         for i in 0..n {
             cli.push(per.get(&i).cloned().unwrap_or(Cli::Absent));
@@ -231,6 +256,16 @@ pub fn case(seed: u64, st: &mut Stats) {
         if let Some((x, y)) = conflict {
             if explicit(x) && explicit(y) {
                 exp_err = Some(ErrorKind::ArgumentConflict);
+            }
+        }
+        if exp_err.is_none() {
+            if let Some((x, y)) = overrides {
+                if explicit(x) && explicit(y) {
+                    // one from the command line, the other from the environment: nothing was removed,
+                    // and overrides are implicitly conflicts (validated before requirements)
+                    exp_err = Some(ErrorKind::ArgumentConflict);
+                    st.count("lattice.override-env-vs-cli-conflict");
+                }
             }
         }
         if exp_err.is_none() {
